@@ -57,6 +57,12 @@ func CmdDump(cfg RunConfig) int {
 	for _, w := range pr.LoadWarnings {
 		fmt.Println("warning:", w)
 	}
+	if cfg.OnlyFunc == "mapranges" {
+		for _, l := range pr.MapRanges() {
+			fmt.Println(l)
+		}
+		return 0
+	}
 	res := GenerateProp(pr, cfg.Prop, cfg.OnlyFunc)
 	to := cfg.Timeout
 	if to == 0 {
@@ -74,7 +80,7 @@ func CmdDump(cfg RunConfig) int {
 		for _, o := range r.Obls {
 			fmt.Printf("   %-14s %-10s %6dms  %s\n", o.Status, o.Result.Solver, o.Result.Ms, o.Name)
 			if cfg.Verbose && strings.HasPrefix(o.Status, "failed") {
-				fmt.Println("      ", truncate(firstLine(o.Result.Output), 200))
+				fmt.Println("      ", truncate(firstLine(o.Result.Output), 200), "|", truncate(o.Src, 400))
 			}
 		}
 		if cfg.Verbose {
